@@ -223,6 +223,8 @@ def generate_not_in(predicate: NotInPredicate) -> Iterator:
                 yield from generate_ints(predicate)
             case str():
                 yield from generate_strings(predicate)
+    # no int or str member (e.g. the empty set): any value that is not a member will do
+    yield from generate_anys(predicate)
 
 
 @generate_true.register
